@@ -374,3 +374,60 @@ func HarnessC01_Locality() {
 	vfAssert(vfSameIDSet(w2, ids), "C01 adding/removing an instance that is not a replica of the key leaves the replica set unchanged")
 	vfCover("c01-locality-unchanged")
 }
+
+func init() { vfRegisterBubble("HarnessC01_Buffers", HarnessC01_Buffers) }
+
+// HarnessC01_Buffers: the buffers a caller hands to a lookup are storage to be
+// overwritten, whatever they contain: a lookup with fresh MakeBuffersForGet()
+// buffers, with buffers that still hold the result of an earlier lookup of
+// another key (the documented reuse pattern), or with buffers pre-filled with
+// instance and zone names of the ring, answers exactly like a lookup without
+// buffers.
+func HarnessC01_Buffers() {
+	n := vfParam("inst", 3)
+	zoneAware := vfChoice("za", 2) == 1
+	rf := 1 + vfChoice("rf", vfParam("rf", 3))
+	opIdx := 0 // Write
+	// all instances active and healthy, one symbolic token each, two zones
+	d := NewDesc()
+	for i := 0; i < n; i++ {
+		id := vfIDs[i]
+		d.Ingesters[id] = InstanceDesc{Id: id, Addr: id, Zone: vfZones[i%2], State: ACTIVE, Timestamp: vfEpoch,
+			RegisteredTimestamp: vfEpoch - 1000, Tokens: vfSymTokens("tok_"+id, 1)}
+	}
+	vfAssumeDistinctTokens(d)
+	vfSetNow(vfEpoch)
+	r := vfMkRing(d, rf, zoneAware, time.Minute)
+	key := vfU32("key")
+	ref, refErr := r.Get(key, vfOps[opIdx], nil, nil, nil)
+	var bd []InstanceDesc
+	var bh, bz []string
+	switch vfChoice("buffers", 3) {
+	case 0:
+		bd, bh, bz = MakeBuffersForGet()
+	case 1:
+		bd, bh, bz = MakeBuffersForGet()
+		first, _ := r.Get(vfU32("earlier_key"), vfOps[opIdx], bd, bh, bz)
+		// the caller keeps using the slices it got back, at their current length
+		bd = first.Instances
+		if len(bd) > 0 {
+			bh = bh[:len(bd)]
+			bz = bz[:len(bd)]
+		}
+	case 2:
+		bd = make([]InstanceDesc, 2, 8)
+		bd[0], bd[1] = d.Ingesters[vfIDs[0]], d.Ingesters[vfIDs[0]]
+		bh = append(make([]string, 0, 8), vfIDs[0], vfIDs[1])
+		bz = append(make([]string, 0, 8), vfZones[0], vfZones[1])
+	}
+	got, err := r.Get(key, vfOps[opIdx], bd, bh, bz)
+	vfAssert((err == nil) == (refErr == nil), "C01 a lookup answers the same whatever the caller's buffers contain")
+	if err == nil && refErr == nil {
+		ids := make([]string, len(ref.Instances))
+		for i := range ref.Instances {
+			ids[i] = ref.Instances[i].Id
+		}
+		vfAssert(vfSameIDSet(got.Instances, ids) && got.MaxErrors == ref.MaxErrors, "C01 a lookup answers the same whatever the caller's buffers contain")
+	}
+	vfCover("c01-buffers-done")
+}
